@@ -198,8 +198,11 @@ def h_row_selection(ctx, case):
 
 HARNESSES = [
     Harness('row_selection_by_index', h_row_selection, setup=LL.setup,
-            cases=[{'sizes': [2, 3], 'cells': 3}],
+            cases=[{'sizes': [2, 3], 'cells': 3},
+                   {'sizes': [2, 4], 'cells': 2,
+                    'parents': [[0, 0, 1, 1]]}],
             thorough_cases=[{'sizes': [2, 3], 'cells': 3},
+                            {'sizes': [2, 4], 'cells': 3},
                             {'sizes': [2, 3], 'cells': 4},
                             {'sizes': [2, 2], 'cells': 5}],
             funcs=C03.FUNCS, stubs=C03.STUBS, assumptions=C03.ASSUME,
